@@ -366,3 +366,13 @@ pub broadcast proof fn law_iff(f: BF, g: BF) ensures #[trigger] bf_ite(f, g, bf_
 pub broadcast proof fn law_xor(f: BF, g: BF) ensures #[trigger] bf_ite(f, bf_not(g), g) == bf_xor(f, g) { assert(bf_ite(f, bf_not(g), g) =~= bf_xor(f, g)); }
 pub broadcast proof fn law_var(v: usize) ensures #[trigger] bf_node(v, bf_const(true), bf_const(false)) == bf_var(v) { assert(bf_node(v, bf_const(true), bf_const(false)) =~= bf_var(v)); }
 
+// evaluating an inner node: follow the high child where the node's variable is true
+pub proof fn lemma_den_eval(nodes: Seq<BddNode>, t: int, a: Asg)
+    requires nodes_wf(nodes), 2 <= t < nodes.len(),
+    ensures den(nodes, t)(a) == (if a(nodes[t].var.0) { den(nodes, nodes[t].hi.0 as int)(a) } else { den(nodes, nodes[t].lo.0 as int)(a) }),
+        nodes[t].hi.0 < t, nodes[t].lo.0 < t,
+{ assert(inner_ok(nodes, t)); }
+pub proof fn lemma_den_term_eval(nodes: Seq<BddNode>, t: int, a: Asg)
+    requires 0 <= t <= 1,
+    ensures den(nodes, t)(a) == (t == 1)
+{ }
